@@ -47,7 +47,7 @@ fn uop() -> impl Strategy<Value = UOp> {
 }
 
 pub fn tree_strategy() -> impl Strategy<Value = T> {
-    leaf().prop_recursive(8, 400, 3, |inner| {
+    leaf().prop_recursive(7, 400, 3, |inner| {
         let b = |s: BoxedStrategy<T>| s.prop_map(Box::new);
         let i = inner.clone().boxed();
         prop_oneof![
@@ -82,7 +82,8 @@ pub fn tree_strategy() -> impl Strategy<Value = T> {
 fn deep_tree_strategy() -> impl Strategy<Value = T> {
     prop::collection::vec(any::<u8>(), 24..400).prop_map(|bytes| {
         let mut b = tree::Bytes::new(&bytes);
-        tree::build(&mut b, 8)
+        // 7 operator levels + a leaf level = depth 8
+        tree::build(&mut b, 7)
     })
 }
 
@@ -120,7 +121,7 @@ pub fn check(c: &TreeCase, ctx: &mut CaseCtx) -> Result<(), Fail> {
             ctx.label(format!("has:L{l}"));
         }
     }
-    ctx.label(format!("depth:{}", t.depth().min(9)));
+    ctx.label(format!("depth:{}", t.depth()));
     if nlev >= 3 && pm < pf {
         ctx.set_nontrivial();
     }
